@@ -27,6 +27,19 @@ CLAIMS = {
             "C17_rep, C17_leaf_text; tie: arities 2..16 (library and macro-generated) x alternative index x overlapping inputs, accessors, "
             "helper chain, match_choices!, sequence/repetition accessors, leaf fields, vs model and an independent oracle.",
             "DESIGN.md §4 C17"),
+    "C11": ("Verdict parity (real generator under catch_unwind vs pest_meta parse/validate_ast on deliberately ill-formed grammars, seeded "
+            "mutations and random grammars), structural pipeline-order check of typed.rs, compile + watchdog of the derive corpus: decided "
+            "by validation runs (two real programs). Theorems: see Properties/C11.v (termination of certificate-checked well-founded "
+            "grammars as far as proved).", "DESIGN.md §4 C11"),
+    "C18": ("Theorems C18_eq_debug / C18_ne_debug / C18_eq_hash / C18_refl / C18_sym / C18_trans for all tnode pairs (field-by-field models "
+            "of the derived / hand-written Eq, Hash, Debug). Tie: every pair of results over all sub-inputs of one String: ==, two "
+            "hashers, Debug, clone, second parse; three run orders + fresh processes (statelessness is checked on the code, not claimed by "
+            "a theorem).", "DESIGN.md §4 C18"),
+    "C20": ("Theorem C20_opt_raw_partial (raw and optimized translation coincide where the optimizer only added RestoreOnErr), witness "
+            "C20_refuted_skip (known finding F6), boxing theorems as merged; ties: token-stream hashes across fresh processes, parsing-"
+            "relevant generator output under every representation-only option set == default (gen_dump), V1 for both AST paths, a corpus "
+            "compiled with pest_optimizer = false against the raw model and the PEG spec, boxing flags vs model + compile matrix.",
+            "DESIGN.md §4 C20"),
     "C03": ("Theorem C03_check_is_parse (all environments, expressions, states, fuel): tcheck = erase . tparse incl. stack and tracker "
             "trace; lifted to partial and full entry points. Tie: every catalogue shape x all small inputs, model vs runtime crate "
             "(parse path and check path separately) and implementation parse vs check directly.", "DESIGN.md §4 C03"),
